@@ -6,13 +6,19 @@ The subset understood (anything else raises GenError):
   loop       for v in seq | seq[::-1] | range(<arr>.size):
   body       name = expr | arr[i] = expr | arr[i] += expr | if / elif / else | continue
   exprs      names, integer constants, arr[i], == != < <= > >=, and / or / not, + -, min / max,
-             `m is None or m[i]` for an optional boolean mask, comparison with the missing value mv
+             `m is None or m[i]`, `m is not None and (m[i] | not m[i] | m[i] != 1 | m[i] == False)` for an optional boolean
+             mask (an identity test `m[i] is False` is rejected), comparison with the missing value mv
   epilogue   return x | return np.array(<list state>, dtype=...)
   floats     a float array parameter of type fz / a float scalar parameter of type fZ is NOT modelled: its values belong to
              an abstract type F (a parameter of the definition, with a default element fdef for reads).  The only forms
              understood are  <float> ** <float>  and  <float> cmp <float>:  they become the abstract operations
              fval Fpow x y : Z  and  fbool Fge x y : bool  (parameters like `steplen`; the operator is a constructor of
              the generated type fop, so that a change of operator or operands changes the term, not just a name)
+  isnan      np.isnan(<name or arr[i]>) of an integer-modelled value (a parameter of type Z, an element of a `list Z` array) is
+             the constant `false`: the modelled fields are integer-valued, the model's domain has no NaN.  The rule applies to
+             exactly that call form and to nothing else (np.isnan of any other expression raises GenError).  A prologue
+             `flag = np.isnan(<scalar parameter>)` is a let-bound boolean (`let flag := false in`) and every use of `flag` stays
+             in the term, so that `flag and c`, `flag or c` and `not flag` are different terms
   lists      x = [] with x.append(i) (list nat) or x.append(np.array([i, j], dtype=...)) (list (list nat))
   no loop    x = upstream_count(...); return np.where(x cmp c)[0].astype(...)  ->  filter over the cell numbers
 
@@ -105,6 +111,8 @@ class K:
             return "Z"
         if self.is_distance(e):
             return "Z"
+        if self.is_isnan(e):
+            return "bool"
         fail(e, self.fn, f"unsupported expression {ast.dump(e)[:60]}")
 
     def is_distance(self, e):
@@ -113,6 +121,11 @@ class K:
                 and isinstance(e.func.value, ast.Name) and e.func.value.id == "gis_utils" and len(e.args) == 5 and not e.keywords
                 and all(isinstance(x, ast.Name) for x in e.args) and [x.id for x in e.args[2:]] == ["ncol", "latlon", "transform"]
                 and self.typ(e.args[0]) == "nat" and self.typ(e.args[1]) == "nat")
+
+    def is_isnan(self, e):
+        """np.isnan(<name or arr[i]>) of an integer-modelled value (see the rule `isnan` above); nothing else"""
+        return (gen.is_np_call(e, ("isnan",)) and len(e.args) == 1 and not e.keywords
+                and isinstance(e.args[0], (ast.Name, ast.Subscript)) and self.typ(e.args[0]) == "Z")
 
     def index(self, e):
         """an array index: a cell index / loop counter, or integer arithmetic on a stored label (`lab - 1`)"""
@@ -198,12 +211,12 @@ class K:
                 if (isinstance(a, ast.Compare) and len(a.ops) == 1 and isinstance(a.ops[0], ast.IsNot)
                         and isinstance(a.left, ast.Name) and self.ty.get(a.left.id) == "omask"
                         and isinstance(a.comparators[0], ast.Constant) and a.comparators[0].value is None
-                        and isinstance(b, ast.Compare) and len(b.ops) == 1 and isinstance(b.ops[0], ast.Is)
+                        and isinstance(b, ast.Compare) and len(b.ops) == 1 and isinstance(b.ops[0], ast.Eq)
                         and isinstance(b.left, ast.Subscript) and isinstance(b.left.value, ast.Name) and b.left.value.id == a.left.id
                         and isinstance(b.comparators[0], ast.Constant) and b.comparators[0].value is False):
-                    # `m[i] is False` compares the identity of a NumPy boolean with the Python constant: never true in
-                    # interpreted (reference) mode, whatever the mask holds
-                    return "false"
+                    # `m is not None and m[i] == False`  ->  negb (mget m i).  (An identity test `m[i] is False` is NOT
+                    # translated: it falls through to the generic comparison, which rejects `is`.)
+                    return f"(negb (mget {a.left.id} {self.ex(b.left.slice)}))"
             op = " && " if isinstance(e.op, ast.And) else " || "
             for v in e.values:
                 if self.typ(v) != "bool":
@@ -273,6 +286,9 @@ class K:
         if self.is_distance(e):
             self.uses_steplen = True
             return f"(steplen {self.ex(e.args[0])} {self.ex(e.args[1])})"
+        if self.is_isnan(e):
+            self.ex(e.args[0])       # the argument must itself be understood
+            return "false"           # integer-valued fields: no NaN in the model's domain
         fail(e, self.fn, f"unsupported expression {ast.dump(e)[:60]}")
 
     # ---------------------------------------------------------------- statements
@@ -494,6 +510,12 @@ class K:
             if isinstance(v, (ast.Constant, ast.UnaryOp)) and name not in self.ty and self.typ(v) == "Z":
                 # a scalar constant used by the loop (it may be re-bound inside the loop body)
                 self.ty[name] = "Z"
+                self.locals.add(name)
+                self.consts = getattr(self, "consts", []) + [(name, self.ex(v))]
+                continue
+            if name not in self.ty and isinstance(v, ast.Call) and self.is_isnan(v) and isinstance(v.args[0], ast.Name):
+                # flag = np.isnan(<scalar parameter>): a let-bound boolean used by the loop
+                self.ty[name] = "bool"
                 self.locals.add(name)
                 self.consts = getattr(self, "consts", []) + [(name, self.ex(v))]
                 continue
